@@ -21,6 +21,9 @@ M = [
     ('passes', 'forward_pass', 'pjplan/schedule.py', "                    _task.start = min(children_starts)\n\n            if _task.estimate is None:\n                if is_leaf:\n                    _task.estimate = self.__default_estimate",
      "                    _task.start = max(children_starts)\n\n            if _task.estimate is None:\n                if is_leaf:\n                    _task.estimate = self.__default_estimate", 'C07'),
     ('passes', 'backward_pass', 'pjplan/schedule.py', "                if succ.start is not None:\n                    min_date = min(min_date, succ.start)", "                pass", 'C09'),
+    ('passes', 'ForwardScheduler.calc', 'pjplan/schedule.py', "        forward = wbs.clone()\n        self.__prepare_tasks(forward)", "        forward = wbs.clone()", 'summary-fields-cleared'),
+    ('passes', 'BackwardScheduler.calc', 'pjplan/schedule.py', "            self.__backward_pass(backward_roots[i], self.__end, backward_resource_usage, calculated)", "            self.__backward_pass(backward_roots[0], self.__end, backward_resource_usage, calculated)", 'roots-scheduled'),
+    ('passes', 'ForwardScheduler.calc', 'pjplan/schedule.py', "            self.__forward_pass(t, self.__start, forward_resource_usage, calculated)", "            self.__forward_pass(t, datetime.now(), forward_resource_usage, calculated)", 'bound'),
     ('task', 'parent.setter', 'pjplan/task.py', "            if parent is self or parent in self.all_children:", "            if parent in self.all_children:", 'F4'),
     ('task', 'parent.setter', 'pjplan/task.py', "            self._attach(parent.__wbs)", "            pass", 'C11'),
     ('task', 'parent.setter', 'pjplan/task.py', "            _check_no_links_to_ancestors(self, parent)\n\n        if self.__parent is not None", "\n        if self.__parent is not None", 'X1'),
